@@ -383,50 +383,57 @@ Agree(L, xf, df) ==
    x.fp    [ok, kind, f, b]   <Class>.from_pdu(pdu)
    x.dyn   [typed, kind, f, b] UDSRequest.parse_dynamic(pdu)
    x.wire  [has, ok, b] bytes UDSClient.<method>() handed to transport.write *)
-ReqVerdict(x) ==
+\* all clauses a request execution breaks, in the order of the statement
+\* (<<>> = the execution satisfies C01)
+ReqBroken(x) ==
   LET L == ReqLayout[x.kind]
       r == ReqRange(x.kind, x.f)
   IN
-  IF r = "unspec" THEN "ok"
+  IF r = "unspec" THEN <<>>
   ELSE IF r = "out"
-       THEN IF x.built.ok /\ x.pdu.ok THEN "Q4/out-of-range-not-refused"
-            ELSE IF x.wire.has /\ x.wire.ok THEN "Q4/out-of-range-on-wire"
-            ELSE "ok"
+       THEN IF x.built.ok /\ x.pdu.ok THEN <<"Q4/out-of-range-not-refused">>
+            ELSE IF x.wire.has /\ x.wire.ok THEN <<"Q4/out-of-range-on-wire">>
+            ELSE <<>>
   ELSE
     LET e == Enc(L, x.f)
         d == Dec(L, e)
         rk == ReqKindOf(e)
+        q2 == IF ~x.fp.ok THEN <<"Q2/parse-back-raises">>
+              ELSE IF x.fp.kind # x.kind THEN <<"Q2/parse-back-kind">>
+              ELSE IF x.fp.b # e THEN <<"Q2/parse-back-bytes">>
+              ELSE IF ~Agree(L, x.fp.f, d.f) THEN <<"Q2/parse-back-fields">>
+              ELSE <<>>
+        q3 == IF ~x.dyn.typed THEN <<"Q3/degraded-to-raw">>
+              ELSE IF x.dyn.kind # rk THEN <<"Q3/dynamic-kind">>
+              ELSE IF x.dyn.b # e THEN <<"Q3/dynamic-bytes">>
+              ELSE IF ~Agree(ReqLayout[rk], x.dyn.f, Dec(ReqLayout[rk], e).f) THEN <<"Q3/dynamic-fields">>
+              ELSE <<>>
+        qw == IF x.wire.has /\ (~x.wire.ok \/ x.wire.b # e) THEN <<"Q1/wire-bytes">> ELSE <<>>
     IN
-    IF ~d.ok \/ rk = "none" THEN "SPEC/layout-table-inconsistent"
-    ELSE IF ~x.built.ok THEN "Q1/in-range-refused"
-    ELSE IF ~x.pdu.ok THEN "Q1/serialise-raises"
-    ELSE IF x.pdu.b # e THEN "Q1/layout"
-    ELSE IF ~x.fp.ok THEN "Q2/parse-back-raises"
-    ELSE IF x.fp.kind # x.kind THEN "Q2/parse-back-kind"
-    ELSE IF x.fp.b # e THEN "Q2/parse-back-bytes"
-    ELSE IF ~Agree(L, x.fp.f, d.f) THEN "Q2/parse-back-fields"
-    ELSE IF ~x.dyn.typed THEN "Q3/degraded-to-raw"
-    ELSE IF x.dyn.kind # rk THEN "Q3/dynamic-kind"
-    ELSE IF x.dyn.b # e THEN "Q3/dynamic-bytes"
-    ELSE IF ~Agree(ReqLayout[rk], x.dyn.f, Dec(ReqLayout[rk], e).f) THEN "Q3/dynamic-fields"
-    ELSE IF x.wire.has /\ (~x.wire.ok \/ x.wire.b # e) THEN "Q1/wire-bytes"
-    ELSE "ok"
+    IF ~d.ok \/ rk = "none" THEN <<"SPEC/layout-table-inconsistent">>
+    ELSE IF ~x.built.ok THEN <<"Q1/in-range-refused">> \o qw
+    ELSE IF ~x.pdu.ok THEN <<"Q1/serialise-raises">> \o qw
+    ELSE IF x.pdu.b # e THEN <<"Q1/layout">> \o qw
+    ELSE q2 \o q3 \o qw
+ReqVerdict(x) == LET br == ReqBroken(x) IN IF br = <<>> THEN "ok" ELSE br[1]
 
 (* C02 verdict for one recorded response parse x:
    x.b   received bytes;  x.v in {"reject", "raw", "typed"};  x.dyn = came from
    parse_dynamic (registry kind must match) or from <Class>.from_pdu;
    x.kind, x.f exposed kind / fields (typed);  x.re [ok, b] re-serialisation *)
-RespVerdict(x) ==
-  IF x.v = "reject" THEN "ok"
-  ELSE IF x.v = "raw" THEN (IF x.re.ok /\ x.re.b = x.b THEN "ok" ELSE "R2/raw-reencode")
+RespBroken(x) ==
+  IF x.v = "reject" THEN <<>>
+  ELSE IF x.v = "raw" THEN (IF x.re.ok /\ x.re.b = x.b THEN <<>> ELSE <<"R2/raw-reencode">>)
   ELSE
     LET L == RespLayout[x.kind]
         d == Dec(L, x.b)
-    IN
-    IF x.dyn /\ RespKindOf(x.b) # x.kind THEN "R1/kind-not-iso-registry"
-    ELSE IF ~d.ok THEN "R3/length-rule"
-    ELSE IF ~Agree(L, x.f, d.f) THEN "R1/fields"
-    ELSE IF ~x.re.ok THEN "R2/reencode-raises"
-    ELSE IF x.re.b # x.b THEN "R2/reencode"
-    ELSE "ok"
+        r13 == IF x.dyn /\ RespKindOf(x.b) # x.kind THEN <<"R1/kind-not-iso-registry">>
+               ELSE IF ~d.ok THEN <<"R3/length-rule">>
+               ELSE IF ~Agree(L, x.f, d.f) THEN <<"R1/fields">>
+               ELSE <<>>
+        r2 == IF ~x.re.ok THEN <<"R2/reencode-raises">>
+              ELSE IF x.re.b # x.b THEN <<"R2/reencode">>
+              ELSE <<>>
+    IN r13 \o r2
+RespVerdict(x) == LET br == RespBroken(x) IN IF br = <<>> THEN "ok" ELSE br[1]
 =============================================================================
